@@ -22,14 +22,14 @@ typedef struct { const char *name; int streaming; size_t noncelen; int varnonce;
 static uint8_t *dupb(const uint8_t *p, size_t n) { uint8_t *r = (uint8_t *)malloc(n ? n : 1); memcpy(r, p, n); return r; }
 
 static int gcm_seal(const uint8_t *nonce, size_t nl, const uint8_t *aad, size_t al, const uint8_t *pt, size_t n, size_t tl, uint8_t *ct, size_t *ctlen, uint8_t *tag) { SM4_KEY k; sm4_set_encrypt_key(&k, KEY); *ctlen = n; return sm4_gcm_encrypt(&k, nonce, nl, aad, al, pt, n, ct, tl, tag); }
-static int gcm_open(const uint8_t *nonce, size_t nl, const uint8_t *aad, size_t al, const uint8_t *ct, size_t cl, const uint8_t *tag, size_t tl, size_t cut, uint8_t *pt, size_t *pl) { (void)cut; SM4_KEY k; sm4_set_encrypt_key(&k, KEY); *pl = cl;
-	uint8_t *a = dupb(aad, al), *c = dupb(ct, cl), *t = dupb(tag, tl), *nn = dupb(nonce, nl); int r = sm4_gcm_decrypt(&k, nn, nl, a, al, c, cl, t, tl, pt); free(a); free(c); free(t); free(nn); return r; }
+static int gcm_open(const uint8_t *nonce, size_t nl, const uint8_t *aad, size_t al, const uint8_t *ct, size_t cl, const uint8_t *tag, size_t tl, size_t cut, uint8_t *pt, size_t *pl) { SM4_KEY k; sm4_set_encrypt_key(&k, KEY); *pl = cl;
+	uint8_t *a = dupb(aad, al), *c = dupb(ct, cl), *t = dupb(tag, tl), *nn = dupb(nonce, nl); if (cut) memcpy(pt, ct, cl); /* cut 1: decrypt in place */ int r = sm4_gcm_decrypt(&k, nn, nl, a, al, cut ? pt : c, cl, t, tl, pt); free(a); free(c); free(t); free(nn); return r; }
 static int agcm_seal(const uint8_t *nonce, size_t nl, const uint8_t *aad, size_t al, const uint8_t *pt, size_t n, size_t tl, uint8_t *ct, size_t *ctlen, uint8_t *tag) { AES_KEY k; aes_set_encrypt_key(&k, KEY, 16); *ctlen = n; return aes_gcm_encrypt(&k, nonce, nl, aad, al, pt, n, ct, tl, tag); }
-static int agcm_open(const uint8_t *nonce, size_t nl, const uint8_t *aad, size_t al, const uint8_t *ct, size_t cl, const uint8_t *tag, size_t tl, size_t cut, uint8_t *pt, size_t *pl) { (void)cut; AES_KEY k; aes_set_encrypt_key(&k, KEY, 16); *pl = cl;
-	uint8_t *a = dupb(aad, al), *c = dupb(ct, cl), *t = dupb(tag, tl), *nn = dupb(nonce, nl); int r = aes_gcm_decrypt(&k, nn, nl, a, al, c, cl, t, tl, pt); free(a); free(c); free(t); free(nn); return r; }
+static int agcm_open(const uint8_t *nonce, size_t nl, const uint8_t *aad, size_t al, const uint8_t *ct, size_t cl, const uint8_t *tag, size_t tl, size_t cut, uint8_t *pt, size_t *pl) { AES_KEY k; aes_set_encrypt_key(&k, KEY, 16); *pl = cl;
+	uint8_t *a = dupb(aad, al), *c = dupb(ct, cl), *t = dupb(tag, tl), *nn = dupb(nonce, nl); if (cut) memcpy(pt, ct, cl); /* cut 1: decrypt in place */ int r = aes_gcm_decrypt(&k, nn, nl, a, al, cut ? pt : c, cl, t, tl, pt); free(a); free(c); free(t); free(nn); return r; }
 static int ccm_seal(const uint8_t *nonce, size_t nl, const uint8_t *aad, size_t al, const uint8_t *pt, size_t n, size_t tl, uint8_t *ct, size_t *ctlen, uint8_t *tag) { SM4_KEY k; sm4_set_encrypt_key(&k, KEY); *ctlen = n; return sm4_ccm_encrypt(&k, nonce, nl, aad, al, pt, n, ct, tl, tag); }
-static int ccm_open(const uint8_t *nonce, size_t nl, const uint8_t *aad, size_t al, const uint8_t *ct, size_t cl, const uint8_t *tag, size_t tl, size_t cut, uint8_t *pt, size_t *pl) { (void)cut; SM4_KEY k; sm4_set_encrypt_key(&k, KEY); *pl = cl;
-	uint8_t *a = dupb(aad, al), *c = dupb(ct, cl), *t = dupb(tag, tl), *nn = dupb(nonce, nl); int r = sm4_ccm_decrypt(&k, nn, nl, a, al, c, cl, t, tl, pt); free(a); free(c); free(t); free(nn); return r; }
+static int ccm_open(const uint8_t *nonce, size_t nl, const uint8_t *aad, size_t al, const uint8_t *ct, size_t cl, const uint8_t *tag, size_t tl, size_t cut, uint8_t *pt, size_t *pl) { SM4_KEY k; sm4_set_encrypt_key(&k, KEY); *pl = cl;
+	uint8_t *a = dupb(aad, al), *c = dupb(ct, cl), *t = dupb(tag, tl), *nn = dupb(nonce, nl); if (cut) memcpy(pt, ct, cl); /* cut 1: decrypt in place */ int r = sm4_ccm_decrypt(&k, nn, nl, a, al, cut ? pt : c, cl, t, tl, pt); free(a); free(c); free(t); free(nn); return r; }
 
 /* streaming: body = ct||tag fed as [0,cut) and [cut,len) */
 #define STREAM_OPEN(NAME, CTXT, INIT, UPD, FIN) \
@@ -62,7 +62,7 @@ static void one_sealed(const scheme_t *s, size_t n, size_t al, size_t tl, size_t
 	static uint8_t ct[400], tag[32], pt[400], m[400], nn[16], aa[48]; size_t cl = 0, pl = 0; char key[160];
 	memset(tag, 0, sizeof tag);
 	if (s->seal(NONCE, nl, AAD, al, PT, n, tl, ct, &cl, tag) != 1) { snprintf(key, sizeof key, "C05:%s:seal-failed", s->name); vh_viol(key, "\"msglen\":%zu,\"aadlen\":%zu,\"taglen\":%zu", n, al, tl); return; }
-	size_t ncuts = s->streaming ? cl + 1 : 1; uint64_t base = vh_hash(s->name, strlen(s->name), n * 1000003 + al * 1009 + tl * 31 + nl);
+	size_t ncuts = s->streaming ? cl + 1 : 2; /* one-shot: separate buffers, then in place */ uint64_t base = vh_hash(s->name, strlen(s->name), n * 1000003 + al * 1009 + tl * 31 + nl);
 	/* untouched: every chunking must succeed and give back the plaintext */
 	for (size_t cut = 0; cut < ncuts; cut++) { int r = s->open(NONCE, nl, AAD, al, ct, cl, tag, tl, cut, pt, &pl); vh_eval(vh_mix(base + cut));
 		if (r != 1 || pl != n || memcmp(pt, PT, n)) { snprintf(key, sizeof key, "C05:%s:untouched-rejected", s->name); vh_viol(key, "\"msglen\":%zu,\"aadlen\":%zu,\"taglen\":%zu,\"cut\":%zu,\"ret\":%d,\"ptlen\":%zu", n, al, tl, cut, r, pl); return; } }
